@@ -47,7 +47,15 @@ def m_incomparable_delays(v: dict) -> bool:
             and v.get("type") == "AssertionError" and "incomparable" in (v.get("msg") or ""))
 
 
+def m_rt_consumer_late(v: dict) -> bool:
+    """C17: 'too slow' is reported for a simulator that has a zero-delay predecessor while every
+    simulator answers instantly (the predecessor's progress is capped by the real-time cap)."""
+    return (v.get("kind") == "too_slow_reported_with_instant_simulators"
+            and v.get("reported_simulator_has_zero_delay_predecessor") is True)
+
+
 MECHANISMS = {
+    "rt_consumer_late": m_rt_consumer_late,
     "subtime_data_path": m_subtime_data_path,
     "subtime_divergence": m_subtime_divergence,
     "incomparable_delays": m_incomparable_delays,
